@@ -57,14 +57,12 @@ func (in *interp) builtinNum(fr *frame, e *a.Expr) value {
 		if name == "low_bits" {
 			return value{k: vkNum, n: nU(x.wrap(bits) & (uint64(1)<<n.u - 1))}
 		}
-		// high_bits: (x) >> (bits - n); n == 0 shifts by the full width. The
-		// language (and the checker's own bound, bitMask(0)) says 0; the
-		// generated C for base.u32 / base.u64 is undefined there.
+		// high_bits: (x) >> (bits - n); n == 0 shifts by the full width, which
+		// the language (and the checker's own bound, bitMask(0)) says is 0.
+		// Whether the generated C agrees is observed, not modelled: the
+		// G-high-bits-zero family runs as UBSan C (C01) and its trace is
+		// compared with this one (C04).
 		if n.u == 0 {
-			if bits >= 32 && in.monitoring() {
-				in.event(Event{Prop: "C01", Kind: "cgen-ub:high_bits(n:0)", Node: in.nodeText(fr, e), Line: fr.line,
-					Values: x.String() + ".high_bits(n: 0)", Limit: "n >= 1 in the generated C"})
-			}
 			return value{k: vkNum}
 		}
 		return value{k: vkNum, n: nU(x.wrap(bits) >> (uint64(bits) - n.u))}
